@@ -332,6 +332,8 @@ def smt_prove(alg: Z3Alg, pre, goal, timeout_s=30, name='', use_cvc5=True, side=
   Returns Result: proved (unsat), refuted (sat + model as witness), undecided."""
   import z3
   goals = goal if isinstance(goal, (list, tuple)) else [goal]
+  goals = [bool(g) if isinstance(g, np.bool_) else g for g in goals]      # comparisons of concrete numpy scalars
+  pre = [bool(a) if isinstance(a, np.bool_) else a for a in pre]
   goals = [g for g in goals if not (isinstance(g, bool) and g)]
   # syntactic pre-pass: goals that z3's simplifier already reduces to `true` (identical terms, congruent sqrt / trig instances) need no search
   pre_n = len(goals)
